@@ -463,6 +463,16 @@ def check(pid, tier="quick", seed=None, replay=None):
         if obs is None:
             problems.append({"kind": "driver", "log": drv_log[-3000:]})
         else:
+            # a panic that escaped the whole case handler of the driver: the implementation panicked on this
+            # input (drivers catch the panics that are legitimate observations themselves)
+            keep = [i for i, o in enumerate(obs) if not (isinstance(o, dict) and "driver_panic" in o)]
+            for i, o in enumerate(obs):
+                if isinstance(o, dict) and "driver_panic" in o:
+                    violations.append({"case": cases[i], "obs": o})
+            if len(keep) != len(obs):
+                problems.append({"kind": "implementation-panic", "count": len(obs) - len(keep)})
+                cases = [cases[i] for i in keep]
+                obs = [obs[i] for i in keep]
             terms = [P.encode(c, o) for c, o in zip(cases, obs)]
             try:
                 res = coq_eval(pid, exec_mod, terms, shard=getattr(P, "SHARD", 400), tag=tier[0])
@@ -488,6 +498,12 @@ def check(pid, tier="quick", seed=None, replay=None):
         extra_cases = (P.search(srng, problems) if hasattr(P, "search") else []) + P.generate(srng, "search", getattr(P, "SEARCH_N", 3 * P.QUICK_N))
         extra_obs, _ = P.drive(extra_cases, "search") if hasattr(P, "drive") else run_driver(P.GO_PKG, extra_cases, name=pid + "s", timeout=getattr(P, "DRIVER_TIMEOUT", 900))
         if extra_obs is not None:
+            for c, o in zip(extra_cases, extra_obs):
+                if isinstance(o, dict) and "driver_panic" in o:
+                    violations.append({"case": c, "obs": o})
+            ek = [i for i, o in enumerate(extra_obs) if not (isinstance(o, dict) and "driver_panic" in o)]
+            extra_cases = [extra_cases[i] for i in ek]
+            extra_obs = [extra_obs[i] for i in ek]
             try:
                 r2 = coq_eval(pid, exec_mod, [P.encode(c, o) for c, o in zip(extra_cases, extra_obs)],
                               shard=getattr(P, "SHARD", 400), checks=("spec_ok",), tag="s")
@@ -500,7 +516,7 @@ def check(pid, tier="quick", seed=None, replay=None):
 
     new_viol = []
     for v in violations:
-        cls = P.classify(v["case"], v["obs"]) if hasattr(P, "classify") else None
+        cls = P.classify(v["case"], v["obs"]) if hasattr(P, "classify") and "driver_panic" not in v["obs"] else None
         if cls and cls in kf:
             known_lines.append("KNOWN-FINDING: property=%s class=%s %s" % (pid, cls, kf[cls].split("class=%s" % cls, 1)[1].strip()))
         else:
@@ -517,7 +533,8 @@ def check(pid, tier="quick", seed=None, replay=None):
             except Exception as ex:  # shrinking is best-effort
                 notes["shrink_error"] = repr(ex)
         path = write_replay(pid, {"property": pid, "kind": "concrete-violation", "case": v["case"], "obs": v["obs"],
-                                  "explain": P.explain(v["case"], v["obs"]) if hasattr(P, "explain") else "observed behaviour falsifies %s.spec_ok" % exec_mod,
+                                  "explain": ("the implementation panicked on this case: " + str(v["obs"]["driver_panic"])[:300]) if "driver_panic" in v["obs"] else
+                                  (P.explain(v["case"], v["obs"]) if hasattr(P, "explain") else "observed behaviour falsifies %s.spec_ok" % exec_mod),
                                   "broken": [p_["kind"] for p_ in problems], "total_failing_cases": len(new_viol)})
         print("VIOLATION property=%s replay=%s" % (pid, path), flush=True)
         exit_code = 1
